@@ -175,8 +175,13 @@ class Flow:
             return self.join(a, b)
         if isinstance(e, (ast.ListComp, ast.SetComp, ast.GeneratorExp, ast.DictComp)):
             cur = state
+            first = True
             for g in e.generators:
                 cur = self.walk_expr(g.iter, cur)
+                if first:
+                    # the outermost iterable is evaluated unconditionally
+                    state = cur
+                    first = False
                 cur = self.domain.bind(g.target, g.iter, cur, self)
                 for c in g.ifs:
                     cur, _ = self.cond(c, cur)
